@@ -66,6 +66,10 @@ func c22HistCase(out *verifx.Out, e *c22Env, k int, r *verifx.Rng, h c22Hist) {
 		if op.kind == "delobjs" {
 			keys = []string{op.key, op.key + ".2"}
 		}
+		if op.kind == "delobjsmixed" {
+			// one entry that is deleted, one refused for a stale If-Match ETag, one refused because If-Match names a missing key
+			keys = []string{op.key, op.key + ".stale", "missing/" + op.key}
+		}
 		exists := func(kk string) bool { _, err := e.st.Storage.HeadObject(ctx, b, key(kk), nil); return err == nil }
 		ensure := func(kk string) {
 			if !exists(kk) {
@@ -97,7 +101,7 @@ func c22HistCase(out *verifx.Out, e *c22Env, k int, r *verifx.Rng, h c22Hist) {
 			verifx.Check(e.st.Storage.PutObjectTagging(ctx, b, key(op.key), map[string]string{"t": fmt.Sprint(seq)}, nil))
 		case "append":
 			fresh(b, op.key) // appendable: a plain single-part object
-		case "delobjs":
+		case "delobjs", "delobjsmixed":
 			ensure(keys[0])
 			ensure(keys[1])
 		case "appendnew":
@@ -204,6 +208,21 @@ func c22HistCase(out *verifx.Out, e *c22Env, k int, r *verifx.Rng, h c22Hist) {
 						}
 					}
 				}
+			case "delobjsmixed":
+				m := "delete"
+				if versioned {
+					m = "deleteMarkerCreated"
+				}
+				muts = []string{m, "refused", "refused"}
+				var res *storage.DeleteObjectsResult
+				res, err = e.mw.DeleteObjects(ctx, b, []storage.DeleteObjectsInputEntry{{Key: key(keys[0])},
+					{Key: key(keys[1]), IfMatchETag: c22PStr("0000stale0000")}, {Key: key(keys[2]), IfMatchETag: c22PStr("0000missing0000")}})
+				if err == nil && res != nil {
+					// the storage answers per entry: the first deleted, the other two refused
+					if len(res.Entries) != 3 || !res.Entries[0].Deleted || res.Entries[1].Deleted || res.Entries[2].Deleted {
+						err = errors.New("unexpected per-entry result")
+					}
+				}
 			case "complete", "completex":
 				muts = []string{"completeMultipart"}
 				_, err = e.mw.CompleteMultipartUpload(ctx, b, key(op.key), uploadID, nil, nil)
@@ -228,14 +247,19 @@ func c22HistCase(out *verifx.Out, e *c22Env, k int, r *verifx.Rng, h c22Hist) {
 		e.ps.mu.Lock()
 		e.ps.failNext = false
 		e.ps.mu.Unlock()
-		changed := 0
+		// every targeted key changed, except the entries of a bulk delete that the storage must refuse
+		changed, asExpected := 0, true
 		for i, kk := range keys {
-			if e.snap(b, kk) != before[i] {
+			did := e.snap(b, kk) != before[i]
+			if did {
 				changed++
+			}
+			if did != (i >= len(muts) || muts[i] != "refused") {
+				asExpected = false
 			}
 		}
 		ch := "0"
-		if changed == len(keys) {
+		if changed > 0 && asExpected {
 			ch = "1"
 		} else if changed > 0 {
 			ch = "partial"
@@ -264,6 +288,8 @@ func c22HistCase(out *verifx.Out, e *c22Env, k int, r *verifx.Rng, h c22Hist) {
 	// the repository's own count agrees with the table
 	out.Line("count %d", e.repoCount("hist")-len(e.seen))
 }
+
+func c22PStr(s string) *string { return &s }
 
 func c22GenCfg(r *verifx.Rng) *storage.BucketNotificationConfiguration {
 	cfg := &storage.BucketNotificationConfiguration{EventBridgeEnabled: r.Chance(1, 6)}
@@ -299,7 +325,7 @@ func c22GenHist(r *verifx.Rng) c22Hist {
 			DestinationType: storage.NotificationDestinationQueue, DestinationARN: "arn:aws:sqs:eu-central-1:000000000000:only-b", Events: []string{"s3:ObjectCreated:*"}})
 	}
 	h.versioned[0], h.versioned[1] = r.Chance(1, 3), r.Chance(1, 3)
-	kinds := []string{"put", "put", "put", "copy", "copyx", "copyx", "delete", "delete", "delobjs", "complete", "completex", "tagput", "tagdel", "append", "appendnew",
+	kinds := []string{"put", "put", "put", "copy", "copyx", "copyx", "delete", "delete", "delobjs", "delobjsmixed", "complete", "completex", "tagput", "tagdel", "append", "appendnew",
 		"putpartfault", "putprecond", "copymissing", "tagputmissing", "deleteversion"}
 	n := 4 + r.Intn(6)
 	for i := 0; i < n; i++ {
